@@ -475,3 +475,55 @@ Proof.
 Qed.
 
 End Tied.
+
+(* ================================================================== idempotence, hypotheses only
+   on the values held (for parsers that round again, where fmt (rnd x) = fmt x needs a bound on x) *)
+Section RndOn.
+Context {A : Arith}.
+Variable tok : Type.
+Variable fmt : A -> tok.
+Variable parse : tok -> res A.
+Variable rnd : A -> A.
+Notation mesh1 := (mesh1 A A).
+
+Lemma combine_map_map {Y Z Y' Z'} (f : Y -> Y') (g : Z -> Z') (l : list Y) (l' : list Z) :
+  combine (map f l) (map g l') = map (fun p => (f (fst p), g (snd p))) (combine l l').
+Proof.
+  revert l'; induction l as [|y l IH]; intros [|z l']; try reflexivity.
+  cbn [map combine fst snd]. now rewrite IH.
+Qed.
+
+Lemma layout1_rounded_on (m : mesh1) :
+  (forall x, In x (values1 m) -> fmt (rnd x) = fmt x) ->
+  layout1 tok fmt (map_mesh1 rnd m) = layout1 tok fmt m.
+Proof.
+  intros H. unfold layout1, map_mesh1, values1 in *. cbn [m1_nodes m1_vars].
+  rewrite combine_map_map, map_map. apply map_ext_in. intros [x r] Hin. cbn [fst snd].
+  rewrite H by (apply in_or_app; left; eapply in_combine_l; exact Hin). f_equal.
+  rewrite map_map. apply map_ext_in. intros y Hy. apply H. apply in_or_app. right.
+  apply in_concat. exists r. split; [eapply in_combine_r; exact Hin | exact Hy].
+Qed.
+
+Lemma roundtrip_twice_on (m m0 m1 : mesh1) :
+  (forall x, In x (values1 m) -> parse (fmt x) = Ok (rnd x)) ->
+  (forall x, In x (values1 m) -> fmt (rnd x) = fmt x) ->
+  wf1 m -> m1_nvars m0 = m1_nvars m -> m1_nvars m1 = m1_nvars m ->
+  Forall (fun r => length r = m1_nvars m0) (m1_vars m0) ->
+  Forall (fun r => length r = m1_nvars m1) (m1_vars m1) ->
+  exists lines m',
+    output1 tok fmt fmt m = Ok lines /\
+    read1 tok parse m0 (concat lines) = Ok m' /\ m' = map_mesh1 rnd m /\
+    output1 tok fmt fmt m' = Ok lines /\
+    read1 tok parse m1 (concat lines) = Ok m'.
+Proof.
+  intros Hp Hf Hwf Hnv0 Hnv1 Hall0 Hall1.
+  exists (layout1 tok fmt m), (map_mesh1 rnd m).
+  split; [now apply output1_layout|].
+  split; [apply read_layout_roundtrip_on; auto|].
+  split; [reflexivity|].
+  split.
+  - rewrite output1_layout by now apply map_mesh1_wf. now rewrite layout1_rounded_on.
+  - apply read_layout_roundtrip_on; auto.
+Qed.
+
+End RndOn.
